@@ -275,7 +275,7 @@ func (p *specParser) primary() SExpr {
 			p.expect("::")
 			body := p.expr(0)
 			return SQuant{t.v == "forall", vars, body}
-		case "is", "box", "unbox", "zero", "asref":
+		case "is", "box", "unbox", "zero", "asref", "heap":
 			// is(x, T) / box(T, x) / unbox(T, x) / zero(T)
 			p.expect("(")
 			var args []SExpr
@@ -283,7 +283,7 @@ func (p *specParser) primary() SExpr {
 				args = append(args, p.expr(0))
 				p.expect(",")
 				args = append(args, SType{p.typeName()})
-			} else if t.v == "zero" {
+			} else if t.v == "zero" || t.v == "heap" {
 				args = append(args, SType{p.typeName()})
 			} else {
 				args = append(args, SType{p.typeName()})
